@@ -320,6 +320,11 @@ def classify_iterable(I, it):
             if isinstance(b.term, Drop1) and b.term.inner is a.term:
                 return Source(a.term, "adjzip")
             return Source(a.term, "zip", term2=b.term)
+        if it.kind == "zip_longest" and len(it.parts) == 2 and all(isinstance(p, AList) for p in it.parts):
+            # zip_longest of two lists of provably equal length is zip
+            a, b = it.parts
+            if I.ctx.entails(a.term.length() == b.term.length()):
+                return Source(a.term, "zip", term2=b.term)
         if it.kind == "range":
             parts = it.parts
             if len(parts) == 1:
